@@ -2337,6 +2337,10 @@ func (h *c15) replay(t *testing.T, path string) {
 			h.replayBurst(p)
 			continue
 		}
+		if p[0] == "dstread" {
+			h.destinations()
+			continue
+		}
 		if len(p) >= 2 && p[0] == "exchange" {
 			// exchange|<link>|<request>|<response>: the pair over both links, with a fresh key
 			priv, err := encryption.GeneratePrivkey()
@@ -2363,6 +2367,9 @@ func (h *c15) replay(t *testing.T, path string) {
 			continue
 		}
 		switch p[1] {
+		case "anyinto":
+			// the destination dimension is cheap and seeded: all of it again
+			h.destinations()
 		case "rmreq", "rmresp":
 			h.frameDecode(unhex(p[2]))
 		case "dectxt":
@@ -2456,6 +2463,7 @@ func TestVerifC15(t *testing.T) {
 	}
 	h.obfuscators()
 	h.anys()
+	h.destinations()
 	h.exchanges(t, priv, domain)
 	h.bursts(t, priv, domain, vlib.Budget(40, 600))
 }
